@@ -219,6 +219,58 @@ def r2_answers(ctx):
                         stores.append(n)
         ctx.check(bool(stores), sts[0], f"answer `{var}` is stored",
                   f"the answer `{var}` never reaches the profile")
+    # an answer that was rejected (the handler of its validation prints and
+    # asks again) is never stored: no store is reachable from the handler
+    # without the stored variable having been assigned anew
+    for tr in walk_no_nested(sp, False):
+        if not isinstance(tr, ast.Try):
+            continue
+        for h in tr.handlers:
+            if not any(isinstance(x, ast.Continue) for s_ in h.body
+                       for x in ast.walk(s_)):
+                continue
+            hn = cfg.node_of_stmt(h.body[0]) if h.body else None
+            if hn is None:
+                continue
+            for n in cfg.nodes:
+                st = n.ast if n.kind == "stmt" else None
+                if not (isinstance(st, ast.Assign) and isinstance(
+                        st.targets[0], ast.Subscript) and norm(
+                        st.targets[0].value) == "pf" and isinstance(
+                        st.value, ast.Name)):
+                    continue
+                x = st.value.id
+                used = {nm.id for s_ in tr.body for nm in ast.walk(s_)
+                        if isinstance(nm, ast.Name)}
+                for _ in range(3):     # what the validated value derives from
+                    for a_ in walk_no_nested(sp, False):
+                        if isinstance(a_, ast.Assign) and norm(
+                                a_.targets[0]) in used:
+                            used |= {nm.id for nm in ast.walk(a_.value)
+                                     if isinstance(nm, ast.Name)}
+                used -= {"pathlib", "rate", "ir", "pf", "np", "model"}
+                related = x in used or any(
+                    isinstance(a_, ast.Assign) and norm(a_.targets[0]) == x
+                    and any(isinstance(nm, ast.Name) and nm.id in used
+                            for nm in ast.walk(a_.value))
+                    for a_ in walk_no_nested(sp, False))
+                if not related:
+                    continue
+                avoid = {m.id for m in cfg.nodes if m.kind == "stmt"
+                         and isinstance(m.ast, ast.Assign)
+                         and any(isinstance(t_, ast.Name) and t_.id == x
+                                 for t_ in m.ast.targets)}
+                reach = cfg.reach([hn.id], avoid=avoid,
+                                  skip_labels=("exc",))
+                ctx.check(n.id not in reach, st,
+                          f"{norm(st)[:50]} not reachable with a rejected "
+                          "answer",
+                          f"setup_profile stores `{x}` in "
+                          f"{norm(st.targets[0])} on a path that comes from "
+                          f"the rejection of that answer (line "
+                          f"{h.lineno}): an answer the setup refused is "
+                          "written to the profile and the batch fit fails "
+                          "with it")
     # a number typed by the user is stored into a float container: an
     # array built from the stored (possibly all-integer) values would
     # truncate it
